@@ -94,8 +94,11 @@ CHECKS.update({
          "Miri / ASan / valgrind / the audit allocator as memory oracles; Stacked-Borrows runs avoid CSS selectors (third-party servo_arc is rejected by Stacked Borrows); wasm bindings not covered.",
          "5/C18"),
 })
-ENGINES.append({"name": "ffi-driver", "path": "/verif/ffi-driver", "serves_properties": ["C18", "C07"], "kind_free_text": "Rust FFI call-sequence driver (extern declarations of the C surface) run under the audit allocator, Miri, ASan/LSan and valgrind by tools/engines/c18.py"})
-ENGINES.append({"name": "cdriver", "path": "/verif/cdriver", "serves_properties": ["C18"], "kind_free_text": "C client compiled with clang -fsanitize=address,undefined against libredirectionio.a (thorough tier)"})
+
+EXTRA_ENGINES = [
+    {"name": "ffi-driver", "path": "/verif/ffi-driver", "serves_properties": ["C18", "C07"], "kind_free_text": "Rust FFI call-sequence driver (extern declarations of the C surface) run under the audit allocator, Miri, ASan/LSan and valgrind by tools/engines/c18.py"},
+    {"name": "cdriver", "path": "/verif/cdriver", "serves_properties": ["C18"], "kind_free_text": "C client compiled with clang -fsanitize=address,undefined against libredirectionio.a (thorough tier)"},
+]
 
 PENDING_REASON = "monitor under construction in this session; not claimed until its check is registered"
 
@@ -136,7 +139,7 @@ def main():
             "source_commits": hooks_commits,
             "add_only": True,
         },
-        "engines": ENGINES,
+        "engines": ENGINES + EXTRA_ENGINES,
         "checks": checks,
         "notes": "Runtime monitoring of the real library code: reference-model, metamorphic and invariant monitors (rio-mon) plus memory monitors for the C surface. Verdicts are three-valued: VIOLATION (exit 1), held on what was observed (exit 0), inconclusive (listed in evidence, exit 0 without claiming coverage). Known findings are listed in /verif/known_findings.json.",
         "not_applicable": na,
